@@ -21,6 +21,11 @@ CHECKS = {
          "For 15 view configurations (memory/disk root and child, depth-3 views, encrypted, read-only, sub-path, cache root/child/depth-3) every path up to a segment bound over {name, jail, ., .., empty} (with and without leading '/'), plus random longer ones, is given to all 16 operations and to both arguments of the copy operations; after each call the outside of the view (walked through the underlying filespace, hashed host directory for disk, after Commit for caches) must be unchanged, no outside token may come back, no outside-only name may be listed and an escaping path may only be answered as its clamped inside resolution. Held on the enumerated paths and configurations.",
          "accepts both 'rejected' and 'resolved inside the root'; removing the view's own root through the view is not counted as reaching outside",
          "DESIGN.md §5 C03"),
+ "C04": ("fault_enumeration",
+         "runtime byte-exactness oracle over backends/chunkings/pre-existing states, completeness oracle for the copy helpers, and enumeration of every single I/O fault position through a fault-injecting Filespace decorator",
+         "Writers are driven with random chunkings over every backend (memory, disk, encrypted, cache, child views) and every pre-existing file state and read back through ReadFile and Reader with several buffer sizes (io.Reader contract checked). StreamCopy, Copier.Do and fshelper.Copy run over random ordered backend pairs and trees with a pre-seeded destination: a nil error must mean a complete byte-equal copy. For small trees a dry run counts the call points of the decorated source or destination (open, each Read/Write, Close, MkdirAll, ReadDir; at the outer boundary or below the encryption/cache layer) and every position is failed once (error or partial write): an incomplete destination must come with an error. Held on the explored cases.",
+         "one direction only as stated (error with complete destination is accepted); the copy helper's two goroutines interleave, so a fault index can name different calls in different runs",
+         "DESIGN.md §5 C04"),
  "C05": ("fault_enumeration",
          "runtime round-trip/secrecy/freshness oracles plus enumeration of every truncation length and single-byte corruption of the stored bytes; reference-model monitor for the name space",
          "Random plaintexts and settings (both ciphers, memory and disk base, empty and random secret/salt, host binding, WriteFile and chunked Writer) are written and read back by a second instance through ReadFile and Reader with several buffer sizes; stored bytes are searched for plaintext windows, nonces must be unique run-wide, another secret or salt must give an error and zero bytes. For stored files up to 256 bytes every truncation and every single-byte corruption (3 masks), sampled for larger files, is read through both paths: error, zero bytes delivered, no panic, filespace still usable afterwards (a leaked lock deadlocks the child). Name-space histories run against the tree model. Held on the explored cases.",
